@@ -212,7 +212,15 @@ func Run(ctx *common.Ctx) {
 	for i := 0; i < nvalues; i++ {
 		symOK := g.r.Chance(25)
 		var v slip.Object
-		if i%2 == 0 {
+		if i%5 == 0 {
+			// a lambda at top level (where it may carry a doc string) with a generated body: the vehicle for
+			// every special layout of the pretty printer
+			g.hist("kind:lambda-top-level")
+			v = g.genLambda(g.r.Chance(30))
+			if v == nil {
+				v = g.safeValue(2)
+			}
+		} else if i%2 == 0 {
 			g.safe = true // the shapes inside the guard, so that large values stay inside it
 			v = g.safeValue(3)
 			g.safe = false
@@ -250,9 +258,11 @@ func Run(ctx *common.Ctx) {
 	if os.Getenv("VERIF_C19_TIMING") != "" {
 		fmt.Fprintln(os.Stderr, "data part done", time.Since(t0))
 	}
-	nmod, next := 140, 40
+	// known findings C19-class-accessors-keyword and C19-package-load-form
+	checkObjects(ctx, rng, dir, map[string]bool{"class-with-accessor": true, "package": true})
+	nmod, next := 140, 110
 	if ctx.Thorough() {
-		nmod, next = 1500, 400
+		nmod, next = 1500, 1200
 	}
 	for i := 0; i < nmod; i++ {
 		wild := i%2 == 1
@@ -320,7 +330,7 @@ func Run(ctx *common.Ctx) {
 		fmt.Fprintln(os.Stderr, "sessions done", time.Since(t0))
 	}
 	ctx.Meta.DistinctNontrivial = len(distinct)
-	ctx.Meta.Rule = "(a) values: half generated inside the guard (nested lists, dotted lists, adjustable vectors, arrays of rank 2-3, hash tables, lambdas; atoms: fixnums incl. int64 limits, bignums, ratios, floats, characters, strings with quotes/backslashes/newlines/UTF-8, keywords, type symbols), half unrestricted (also plain and odd symbols, small bignums, non-adjustable and empty vectors, rank-0 and zero-size arrays, character/list keys, list values, lambdas with doc strings); per value: LoadForm, the form evaluated, and for 5 margins in 20..120 (20, 120 and three random) plus the plain printer: pp.Append -> ReadOne -> Eval -> Equal. (b) function calls from a pool x 3 margins (judged on the implementation). (c) sessions of 3..12 definition forms (defvar, defparameter, setq, defconstant, defun with 6 lambda-list shapes and generated bodies, defmacro), half tame, half wild (symbol values, list constants, unbound variables, forward calls, wild doc strings, backquote, function quote, multi-entry hash tables): fresh process -> snapshot -> fresh process -> load form by form -> snapshot -> probes of every variable, constant, function (several argument lists), macro and doc string in both processes. (d) tame sessions that also define packages, chains of flavors, generic functions with specialised methods (judged on the implementation). distinct = distinct printed values / histories"
+	ctx.Meta.Rule = "(a) values: half generated inside the guard (nested lists, dotted lists, adjustable vectors, arrays of rank 2-3, hash tables, lambdas; atoms: fixnums incl. int64 limits, bignums, ratios, floats, characters, strings with quotes/backslashes/newlines/UTF-8, keywords, type symbols), half unrestricted (also plain and odd symbols, small bignums, non-adjustable and empty vectors, rank-0 and zero-size arrays, character/list keys, list values, lambdas with doc strings); per value: LoadForm, the form evaluated, and for 5 margins in 20..120 (20, 120 and three random) plus the plain printer: pp.Append -> ReadOne -> Eval -> Equal. every fifth value is a top-level lambda whose body is generated code over all 46 head-symbol templates the pretty printer has layouts for (never evaluated). (b) function calls from a pool plus 40 generated code forms x 3 margins (judged on the implementation). (b2) object load forms (class, class with superclass, class instance, flavor, flavor overriding a default, flavor instance, package, generic function, function, macro) pretty printed at 3 margins and evaluated in a fresh process with probes. (c) sessions of 3..12 definition forms (defvar, defparameter, setq, defconstant, defun with 6 lambda-list shapes and generated bodies over 34 special forms (let*, multi-pair setq, when/unless, cond, block, dotimes/dolist/do/do*/dovector, with-..., funcall/apply of lambdas, case, setf, incf, push/pop, unwind-protect, ...), defmacro with let*/setq/cond bodies), half tame, half wild (symbol values, list constants, unbound variables, forward calls, wild doc strings, backquote, function quote, multi-entry hash tables): fresh process -> snapshot -> fresh process -> load form by form -> snapshot -> probes of every variable, constant, function (several argument lists), macro and doc string in both processes. (d) 110 tame sessions that also define packages (constants in them, variables holding them), chains of flavors (re-declared defaults), variables holding instances directly or in hash tables, functions making instances, generic functions with specialised methods and generated bodies (judged on the implementation; send, slot-value and make-load-form probes). distinct = distinct printed values / histories"
 	// spread the (more expensive) session cases evenly over the shards
 	terms, descs = spread(terms, descs, nvalues)
 	header := "From Coq Require Import List String ZArith NArith Bool.\nImport ListNotations.\nFrom C19 Require Import Model Spec Corr.\n"
